@@ -4,6 +4,9 @@ Do not edit: the committed copy is what the pinned tree yields. -/
 namespace IgVerif.Gen
 open IgVerif
 
+/-- counts that input() reads into an uninitialised local and uses (loop bound, reserve) without looking at the stream state -/
+def unguardedCounts : List String := []
+
 def dbSchemaExtractionFailed : Bool := false
 def dbSchemaExtractionError : String := ""
 
